@@ -13,6 +13,8 @@ matcher that flags every name outside the allow-list, after the translation inte
 * `C16_every_namespace_field_is_seen`: on the current tree the visitor sees the name at the end of every structural
   path to a namespace field, of any depth, including inside history blobs (this is C12's coverage theorem:
   "translated" and "seen by the access matcher" are the same traversal);
+* `C16_unreadable_request_denied`: a request whose history blob can neither be decoded nor repaired (so that the
+  visitor fails and the names in it cannot be checked) is refused, never passed on unchecked;
 * `C16_list_namespaces_filtered`: the ListNamespaces response keeps exactly the allowed names, in order;
 * the decision function has no translation-bypass input: the header cannot influence it (it only switches the
   translation interceptor off, so the check then runs on the untranslated names — modelled exactly).
@@ -34,6 +36,17 @@ theorem C16_list_namespaces_filtered (allowed : List String) (names : List Strin
     (∀ n ∈ filterNamespaces (some allowed) names, isAllowed allowed n = true) ∧
     (filterNamespaces (some allowed) names).Sublist names :=
   list_namespaces_filtered allowed names
+
+/-- a request the visitor cannot read (a history blob that is neither decodable nor repairable, so its names
+    cannot be checked) is refused too, for every policy and method of either service -/
+theorem C16_unreadable_request_denied (p : Policy) (svc : Service) (name : String)
+    (hsvc : svc = .workflow ∨ svc = .admin) : aclUnaryOnV p svc name none = .denied := by
+  unfold aclUnaryOnV
+  rcases hsvc with h | h <;> subst h <;> simp <;> split <;> simp_all
+
+/-- and when the visitor succeeds the decision is exactly the one of `aclUnaryOn` on the names it saw -/
+theorem C16_readable_request_decided_by_names (p : Policy) (svc : Service) (name : String) (ns : List String) :
+    aclUnaryOnV p svc name (some ns) = aclUnaryOn p svc name ns := rfl
 
 end S2S.Acl
 
